@@ -879,6 +879,14 @@ def shared_mechanisms(run: Run, prop: str, first: int, which: list):
                            'with C04.R2)')
             borrow(run, rule, c04.r2_eval, get_runtime(src))
             run.floor(rule, 10)
+        elif name == 'current-values':
+            from . import c08
+            run.rule(rule, 'a reference evaluates to the value its cell has now for this object: no helper keeps a value between queries, '
+                           'the state of the generated class is per instance (shared with C08.R1/R4, C18.R5)')
+            borrow(run, rule, c08.r1, src, get_runtime(src), get_callgraph(src))
+            borrow(run, rule, c08.r4, src, get_runtime(src))
+            run.guard(rule, shared, run, rule, check_per_instance_state, get_runtime(src))
+            run.floor(rule, 50)
         elif name == 'facade':
             from . import c09
             run.rule(rule, 'a request on the Parser answers for the workbook as it is now: a path set again is read again, a failed request '
